@@ -137,7 +137,7 @@ func init() {
 		ID: "C09", Level: "exploration",
 		Rule: "every string function of the property x every argument tuple over a 12-string ASCII alphabet (empty, blanks, tabs/newlines, mixed case), substring over the complete 12x16x17 cube of (string, start, length) incl. negative/fractional/huge numbers, all chains of <= 4 (thorough: 5) unary string wrappers, and flat node-set arguments on every document of a value universe from every context node, compared with the reference string/number/boolean; distinct = distinct expressions",
 		Assumptions:    []string{"hand-written reference string functions (XPath 1.0 §4.2, F&O for the three 2.0 functions)", "ASCII only", "bounded alphabets"},
-		Budget:         budget(55*time.Second, 10*time.Minute),
+		Budget:         budget(90*time.Second, 10*time.Minute),
 		MinRefOutcomes: 2,
 		Spaces:         c09Spaces,
 	})
